@@ -168,7 +168,7 @@ func (fc *FnCtx) callModifies(x ssa.CallInstruction) ([]keySort, bool) {
 			}
 			var out []keySort
 			for _, l := range leavesOf(et) {
-				out = append(out, keySort{"elem|" + typeName(et) + l.Suffix, arrSort(true, l.Sort), nil})
+				out = append(out, mkKS("elem|" + typeName(et) + l.Suffix, arrSort(true, l.Sort)))
 			}
 			return out, false
 		case "delete":
@@ -282,7 +282,7 @@ func (fc *FnCtx) assignTargets(env *SpecEnv, a *Clause) []assignTarget {
 	if strings.HasPrefix(a.Src, "ghost ") {
 		// scalar ghost variable, e.g. "ghost now"
 		name := strings.TrimSpace(strings.TrimPrefix(a.Src, "ghost "))
-		return []assignTarget{{ghost: "ghost|" + name, scalarGhost: true, keys: []keySort{{"ghost|" + name, ghostScalarSorts[name], nil}}}}
+		return []assignTarget{{ghost: "ghost|" + name, scalarGhost: true, keys: []keySort{mkKS("ghost|" + name, ghostScalarSorts[name])}}}
 	}
 	// s[lo:hi] or s[:] : elements of a slice
 	if e.K == "slice" {
@@ -302,13 +302,13 @@ func (fc *FnCtx) assignTargets(env *SpecEnv, a *Clause) []assignTarget {
 		}
 		t := assignTarget{isRng: true, s: s, lo: app("bvadd", s.Off, lo), hi: app("bvadd", s.Off, hi), et: et}
 		for _, l := range leavesOf(et) {
-			t.keys = append(t.keys, keySort{"elem|" + typeName(et) + l.Suffix, arrSort(true, l.Sort), nil})
+			t.keys = append(t.keys, mkKS("elem|" + typeName(et) + l.Suffix, arrSort(true, l.Sort)))
 		}
 		return []assignTarget{t}
 	}
 	if e.K == "call" && e.X[0].K == "id" && e.X[0].Name == "held" {
 		p, _ := env.evalLoc(e.X[1])
-		return []assignTarget{{ghost: fc.heldKey(p), ptr: p, keys: []keySort{{fc.heldKey(p), "(Array Int Bool)", nil}}}}
+		return []assignTarget{{ghost: fc.heldKey(p), ptr: p, keys: []keySort{mkKS(fc.heldKey(p), "(Array Int Bool)")}}}
 	}
 	if e.K == "call" && e.X[0].K == "id" && e.X[0].Name == "mapof" {
 		x := env.eval(e.X[1])
@@ -319,7 +319,7 @@ func (fc *FnCtx) assignTargets(env *SpecEnv, a *Clause) []assignTarget {
 	prefix, elem := keyBase(p)
 	tg := assignTarget{ptr: p, t: t}
 	for _, l := range leavesOf(t) {
-		tg.keys = append(tg.keys, keySort{prefix + l.Suffix, arrSort(elem, l.Sort), nil})
+		tg.keys = append(tg.keys, mkKS(prefix + l.Suffix, arrSort(elem, l.Sort)))
 	}
 	return []assignTarget{tg}
 }
